@@ -15,12 +15,9 @@ pub struct Alma<T, V> {
     /// The configured window length.
     #[getset(get_copy = "pub")]
     window_len: usize,
-    wtd_sum: T,
-    cum_wt: T,
-    m: T,
-    s: T,
+    // gaussian weight of each position in the window, oldest first.
+    weights: Vec<T>,
     q_vals: VecDeque<T>,
-    q_wtd: VecDeque<T>,
     q_out: VecDeque<T>,
 }
 
@@ -45,15 +42,17 @@ where
         let wl = T::from(window_len).expect("can convert");
         let m = offset * (wl + T::one());
         let s = wl / sigma;
+        let weights = (0..window_len)
+            .map(|i| {
+                let pos = T::from(i).expect("can convert");
+                (-(pos - m).powi(2) / (T::from(2.0).expect("can convert") * s * s)).exp()
+            })
+            .collect();
         Alma {
             view,
             window_len,
-            m,
-            s,
-            wtd_sum: T::zero(),
-            cum_wt: T::zero(),
+            weights,
             q_vals: VecDeque::new(),
-            q_wtd: VecDeque::new(),
             q_out: VecDeque::new(),
         }
     }
@@ -72,26 +71,20 @@ where
         debug_assert!(val.is_finite(), "value must be finite");
 
         if self.q_vals.len() >= self.window_len {
-            let old_val = self.q_vals.front().unwrap();
-            let old_wtd = self.q_wtd.front().unwrap();
-            self.wtd_sum = self.wtd_sum - *old_wtd * *old_val;
-            self.cum_wt = self.cum_wt - *old_wtd;
-
             self.q_vals.pop_front();
-            self.q_wtd.pop_front();
             self.q_out.pop_front();
         }
-        let count = T::from(self.q_vals.len()).expect("can convert");
-        let wtd = (-(count - self.m).powi(2)
-            / (T::from(2.0).expect("can convert") * self.s * self.s))
-            .exp();
-        self.wtd_sum = self.wtd_sum + wtd * val;
-        self.cum_wt = self.cum_wt + wtd;
-
         self.q_vals.push_back(val);
-        self.q_wtd.push_back(wtd);
 
-        let ala = self.wtd_sum / self.cum_wt;
+        // The weight of a value is given by its current position in the window.
+        let mut wtd_sum = T::zero();
+        let mut cum_wt = T::zero();
+        for (v, wt) in self.q_vals.iter().zip(self.weights.iter()) {
+            wtd_sum = wtd_sum + *wt * *v;
+            cum_wt = cum_wt + *wt;
+        }
+
+        let ala = wtd_sum / cum_wt;
         debug_assert!(ala.is_finite(), "value must be finite");
         self.q_out.push_back(ala);
     }
